@@ -5,7 +5,8 @@ package api
 // there. Reference lexer (DuckDB's rules for the constructs used): '...' is a string ('' escapes), "..." is an
 // identifier ("" escapes), -- starts a comment to the end of the line and /* ... */ a block comment, both only
 // OUTSIDE strings and quoted identifiers. Universe: every concatenation of up to 5 (thorough: 6) tokens of
-//   { " , ' , -- , /* , */ , newline , space , x , read_csv( }
+//   { " , ' , -- , /* , */ , newline , space , x , backslash , read_csv( }   (a backslash is an ordinary character in
+//   standard strings and identifiers)
 // For each text in which the reference lexer finds read_csv( as live SQL (and all quotes/comments closed before
 // it), the denylist pattern must match the normalised form.
 
@@ -80,7 +81,7 @@ func TestVerifBoundedIODenylistSeesLiveCalls(t *testing.T) {
 	if os.Getenv("VERIF_TIER") == "thorough" {
 		maxTok = 6
 	}
-	toks := []string{`"`, `'`, "--", "/*", "*/", "\n", " ", "x", "read_csv("}
+	toks := []string{`"`, `'`, "--", "/*", "*/", "\n", " ", "x", `\`, "read_csv("}
 	n, live := 0, 0
 	var rec func(s string, depth int)
 	rec = func(s string, depth int) {
